@@ -1,4 +1,7 @@
+#[cfg(not(desync_verif))]
 use futures::channel::oneshot;
+#[cfg(desync_verif)]
+use crate::verif::oneshot;
 
 ///
 /// The queue resumer is used to resume a queue that was suspended using the `suspend()` function in the scheduler
